@@ -904,6 +904,7 @@ def run(tier):
             continue
         kept.append((sig, case, det))
     R.set("family_failures_already_seen_without_the_family", explained)
+    kept.sort(key=lambda f: len(f[1].get("text", "")))  # smallest case first per signature (stable)
     R.fail_many(regroup(kept))
 
     feats = total.get("features", {})
